@@ -13,5 +13,7 @@ INVARIANT CreationOrderIrrelevant
 INVARIANT ZeroWeightIsIsolation
 INVARIANT OnlyPostCompartmentsMove
 INVARIANT RefsExist
+INVARIANT TrainablesReachTheirSynapses
+INVARIANT UntrainedSynapsesKeepTheirTableWeight
 CONSTRAINT Emit
 CHECK_DEADLOCK FALSE
